@@ -3,9 +3,9 @@ from __future__ import annotations
 from appsession import *  # noqa
 
 ID = "C08"
-PROOF_MODULES = ["VncProofs.C08", "VncProofs.C10"]
+PROOF_MODULES = ["VncProofs.C08", "VncProofs.C10", "VncProofs.C08Sys"]
 THEOREMS = ["Vnc.C08_advance_markers", "Vnc.C08_advance_writes", "Vnc.C08_closes_last", "Vnc.C08_pause", "Vnc.C08_timer_resumes",
-            "Vnc.C08_commit_does_not_resume_timer", "Vnc.C08_delay", "Vnc.C10_sound"]
+            "Vnc.C08_commit_does_not_resume_timer", "Vnc.C08_delay", "Vnc.C10_sound", "Vnc.C08_sys_ordered", "Vnc.C08_sys_close_after_all", "Vnc.C08_sys_ordT"]
 TRUSTED = [
     "Lean 4.33 kernel; standard axioms only",
     "the executor of VncModel/Client.lean IS the abstraction of Twisted's Deferred chain as vncdo uses it (a callback that returns a Deferred suspends the chain until it fires; inlineCallbacks for mouseDrag; reactor.callLater ordering): validated by the correspondence run against the real vncdo() under a virtual clock, not proved",
@@ -148,6 +148,9 @@ def oracle_sequential(spec, res):
     return None
 
 
+ord_lines = []
+
+
 def run(ctx):
     r = ctx.rng
     n = ctx.n(220, 1500)
@@ -200,6 +203,18 @@ def run(ctx):
                 ctx.violate("vncdo-rejects-valid-script", dict(rp, observed="vncdo() ended with %r / %r" % (res["error"], res["exit_code"])))
                 continue
             bad = oracle_sequential(spec, res)
+            # the same history judged by the checker the theorem C08_sys_ordered is about (VncSpec/Order.lean, through the driver)
+            flat_ = [t for e in res["events"] for t in e[1]]
+            if "made" in flat_:
+                hist = []
+                for t in flat_[flat_.index("made") + 1:]:
+                    if t.startswith("start:"): hist.append("s" + t[6:])
+                    elif t.startswith("finish:"): hist.append("f" + t[7:])
+                    elif t.startswith("w:"): hist.append("w")
+                    elif t.startswith("save:"): hist.append("v")
+                    elif t.startswith("chainfailed"): hist.append("x")
+                    elif t == "close": hist.append("c")
+                ord_lines.append(("ordered " + " ".join(hist), rp, bool(bad)))
             if bad:
                 ctx.violate("sequencing", dict(rp, observed=bad))
             elif res.get("stalled"):
@@ -212,3 +227,9 @@ def run(ctx):
     if mout is not None:
         for off, k, chk in checks:
             chk(mout[off:off + k])
+    oout = ctx.drive([l for l, _, _ in ord_lines])
+    if oout is not None:
+        for (l, rp, pybad), o in zip(ord_lines, oout):
+            ctx.count("histories_judged_by_the_lean_checker")
+            if o == "ok false" and not pybad:
+                ctx.violate("sequencing", dict(rp, observed="the history of script actions %r violates the discipline of VncSpec/Order.lean (scriptOrdered): a command started out of turn, or bytes / an image / the close outside a command" % l[8:200]))
